@@ -104,17 +104,22 @@ PROPS["C20"] = dict(
 
 PROPS["C09"] = dict(
     level="other", claimed=True, verus=True,
-    level_text="Verus (unit fftcore, body cut out of /repo, abstract elements and twiddles, no size bound): the butterfly network "
+    level_text="Verus (unit fftcore, bodies cut out of /repo, abstract elements and twiddles, no size bound): (1) the butterfly network "
                "fft_in_place - the core of every evaluate_poly* / interpolate_poly* / segment LDE - with its (count, stride, offset) "
-               "batching and MAX_LOOP recursion switch computes, on each interleaved subsequence, the textbook radix-2 "
-               "decimation-in-time recursion (outputs in bit-reversed order) and touches nothing else, for every power-of-two length, "
-               "every element value and every twiddle table. Verus (unit fftv): the in-place permutation FftInputs::permute that follows "
-               "moves the element at the bit-reversed position to each position. Kani (complete, loop-free, every size 2^0..2^63): "
-               "permute_index is the bit reversal, an involution and injective. That the recursion equals the discrete Fourier transform "
-               "for the twiddles the library builds, offsets, blowups, interpolation, degree inference and the column-batched / segmented "
+               "batching and MAX_LOOP recursion switch, and the slice butterflies it calls, compute on each interleaved subsequence the textbook radix-2 "
+               "decimation-in-time recursion (outputs in bit-reversed order) and touch nothing else, for every power-of-two length, "
+               "every element value and every twiddle table; (2) that recursion IS the discrete Fourier transform: with twiddles w^bitrev(k) and "
+               "w^(n/2) == -1 output p equals sum_i s[i] * w^(i * bitrev p), for every power-of-two size, relative to the module laws of the "
+               "coefficient structure stated as a hypothesis; (3) get_twiddles / get_inv_twiddles build exactly that table for the root returned by "
+               "get_root_of_unity (resp. its inverse) and their runtime assertions never fire under the documented pre-condition; (4) hence evaluate_poly returns at "
+               "position t the polynomial evaluated at w^t, in natural order, and interpolate_poly returns (1/n) * sum_i v[i] * w^(-i*t) - the inverse-transform formula. "
+               "Verus (unit fftv): the in-place permutation FftInputs::permute moves the element at the bit-reversed position to each position. "
+               "Kani (complete, loop-free, every size 2^0..2^63): permute_index is the bit reversal (bitwise and as the recurrence on the lowest bit), "
+               "an involution and injective. Offsets, blowups, degree inference and the column-batched / segmented "
                "LDE rest on a bounded stand-in (native execution of the real code against direct evaluation written in the check).",
-    level_note="Not decided deductively: fft(s) == DFT(s) for tw[k] = w^bitrev(k) (a property of the specification function over a field), "
-               "get_twiddles / get_inv_twiddles, the offset / blowup wrappers (iterator-adapter bodies), the [[E; N]] butterflies. Bounded "
+    level_note="Not decided deductively: that the inverse-transform formula inverts evaluation (orthogonality of the roots of unity over a field), "
+               "the offset / blowup wrappers (closure / chunks_mut / zip bodies), shift_by (iter_mut body, assumed), get_power_series (macro body, assumed; worker proved in polyv), "
+               "the [[E; N]] butterflies. Bounded "
                "as stated in coverage.native_bounded_standins. The multi-threaded variants (`concurrent` feature) are not built.",
     explanation=MIX)
 
